@@ -387,6 +387,51 @@ pub fn families(focus: Focus) -> Vec<Box<dyn Family>> {
         },
     ));
     v.push(family(
+        "ubiquitous_between_fresh",
+        "101..260 tokens: paragraphs of distinct lines separated by ONE ubiquitous token (a blank line: 9..40 occurrences), where around some of the separators two or three ONE-SIDED tokens stand directly before and after it on one side (remarks added / removed around a blank line) - a pre-pass that discards 'irrelevant' occurrences of frequent tokens loses an item of the longest common subsequence; through the text entry point (integer mapping above 100 tokens) and capture_diff x {Myers, Patience, Lcs}; DP oracle",
+        false,
+        2,
+        move |cfg| cfg.n(400, 8000),
+        move |idx, cfg, out| {
+            let mut rng = Rng::for_case(cfg.seed, "captured.ubiquitous", idx);
+            let paragraphs = if cfg.tiny { 3 } else { rng.range(9, 40) };
+            let mut a: Vec<u32> = Vec::new();
+            let mut b: Vec<u32> = Vec::new();
+            let mut fresh = 1_000_000u32;
+            let mut next = 100u32;
+            for _ in 0..paragraphs {
+                let k = 1 + rng.below(if cfg.tiny { 2 } else { 6 });
+                for _ in 0..k {
+                    a.push(next);
+                    b.push(next);
+                    next += 1;
+                }
+                // the separator, possibly with one-sided tokens right before and after it
+                let mode = rng.below(5);
+                let (na, nb) = (2 + rng.below(2), 2 + rng.below(2));
+                let side_a = rng.chance(1, 2);
+                let mut put = |v: &mut Vec<u32>, n: usize, fresh: &mut u32| {
+                    for _ in 0..n {
+                        v.push(*fresh);
+                        *fresh += 1;
+                    }
+                };
+                if mode <= 1 {
+                    if side_a { put(&mut a, na, &mut fresh) } else { put(&mut b, na, &mut fresh) }
+                }
+                a.push(5);
+                b.push(5);
+                if mode == 1 || mode == 2 {
+                    if side_a { put(&mut a, nb, &mut fresh) } else { put(&mut b, nb, &mut fresh) }
+                }
+            }
+            let alg = if focus == Focus::C03 { if rng.chance(1, 3) { Algorithm::Lcs } else { Algorithm::Myers } } else { ALGS[rng.below(3)] };
+            out.sample(|| format!("alg={} N={} M={} old={} new={}", alg_name(alg), a.len(), b.len(), fmt_seq(&a), fmt_seq(&b)));
+            out.count("ubiquitous_token_cases");
+            captured_case(focus, cfg, alg, &a, 0..a.len(), &b, 0..b.len(), if idx % 3 == 0 { 0 } else { 2 }, false, out);
+        },
+    ));
+    v.push(family(
         "tolerance",
         "heterogeneous item types with a NON-TRANSITIVE, coarse cross comparison (old u32, new Tol: equal iff |a-b| <= 1): every ordered pair over {0..4} with length <= 4 (thorough 5) + seeded random pairs over {0..9} up to 40 items and edited copies of 101..260 items x 3 algorithms through capture_diff: validity / normal form / carried positions / minimality are all judged under that same cross comparison",
         true,
@@ -1198,7 +1243,13 @@ fn odd_text_ops(alg: Algorithm, a: &[u32], b: &[u32], deadline: Option<Instant>)
     let mk = |v: &[u32], side: u64| -> String {
         let mut s = String::new();
         for (i, x) in v.iter().enumerate() {
-            s.push_str(&recase(&format!("tok{}", x), side * 1_000_003 + i as u64));
+            // (items 2 and 3 are a BLANK and a whitespace-only line; the mapping stays injective)
+            let body = match *x {
+                2 => String::new(),
+                3 => "  ".to_string(),
+                x => format!("tok{}", x),
+            };
+            s.push_str(&recase(&body, side * 1_000_003 + i as u64));
             s.push_str(if x % 2 == 0 { "\n" } else { "\u{2028}" });
         }
         s
